@@ -150,6 +150,9 @@ def construct(spec):
     if pending:
         raise Unbuildable()
     for i, (typ, slots) in enumerate(spec):
+        if typ == 'set' and len(objs[i]) != len(slots):
+            raise Unbuildable()     # two members that are equal in Python ((), () or (1,), (True,)) collapsed into one
+    for i, (typ, slots) in enumerate(spec):
         if typ == 'list':
             for kind, v in slots:
                 objs[i].append(v if kind == 's' else objs[v])
